@@ -82,7 +82,7 @@ def load_dump_file(ctx, clear, with_state):
 
     def deserialize(I, selfv, args, kw):
         if I.ctx.decide(fails, 'deserialize-fails'):
-            I.raise_('UnpicklingError')
+            I.raise_('ArbitraryError')     # reading / unpickling a dump may fail with any exception type
         return dump
     reg['Serializer.deserialize'] = deserialize
     reg['Transport.addNode'] = lambda I, s, a, k: ev.append(('addNode', a[0]))
